@@ -24,22 +24,22 @@ CHECKS = {
    "DESIGN.md section 5 C02"),
  "C07": ("M", "model_checking",
    "exhaustive operand-pair and operator-nesting enumeration against a reference truth table",
-   "All pairs of 84 operand values (every type, emptiness, nesting) x 8 binary operators as fields and as literals, !x/!!x, all nestings of ||,&&,!,comparators up to 5 (thorough 7) tokens over all triples of 12 operand values, the same conditions inside filters, and short-circuit probes with an erroring unevaluated side; compared with the reference evaluator.",
+   "All pairs of 84 operand values (every type, emptiness, nesting) x 8 binary operators as fields and as literals, !x/!!x, all nestings of ||,&&,!,comparators up to 6 (thorough 7) tokens over all triples of 12 operand values, the same conditions inside filters, and short-circuit probes with an erroring unevaluated side; compared with the reference evaluator.",
    "Trusted: model/eval.go truthiness / deep equality / numeric ordering.",
    "DESIGN.md section 5 C07"),
  "C08": ("M", "model_checking",
    "exhaustive (length,start,stop,step) window enumeration against CPython slice arithmetic",
-   "Array lengths 0..4 (thorough 0..7) x all (start,stop,step) in ({absent} U [-L-3,L+3])^3 plus +-2^31/+-2^63 boundary crossings, via [a:b:c], x[a:b:c], a typed []string twin, non-array subjects and 20-digit numerals; compared with a transcription of PySlice_AdjustIndices; panics are violations.",
+   "Array lengths 0..12 (thorough 0..24) x all (start,stop,step) in ({absent} U [-L-3,L+3])^3 plus +-2^31/+-2^63 boundary crossings, via [a:b:c], x[a:b:c], a typed []string twin, non-array subjects and 20-digit numerals; compared with a transcription of PySlice_AdjustIndices; panics are violations.",
    "Trusted: model.SliceIndices. Magnitudes beyond the window are represented by the boundary set only.",
    "DESIGN.md section 5 C08"),
  "C09": ("M", "model_checking",
    "exhaustive well-typed argument-tuple enumeration per built-in against reference function definitions",
-   "For each of the 26 built-ins every well-typed argument tuple of a typed value universe (numbers, 12 strings incl. multi-byte, all arrays up to length 4 (thorough 5) over 4 numbers / 4 strings with duplicates and all orders, {k,t}-object arrays with tied keys, colliding objects, heterogeneous arrays), standalone and in 10 contexts, is evaluated by the reference definitions and replayed against Search; to_string judged by decode-back, to_number per gap G5 over all strings of <=3 symbols from a numeric alphabet.",
+   "For each of the 26 built-ins every well-typed argument tuple of a typed value universe (numbers, 12 strings incl. multi-byte, all arrays up to length 6 (thorough 7) over 4 numbers / 4 strings with duplicates and all orders, {k,t}-object arrays with tied keys, colliding objects, heterogeneous arrays), standalone and in 10 contexts, is evaluated by the reference definitions and replayed against Search; to_string judged by decode-back, to_number per gap G5 over all strings of <=3 symbols from a numeric alphabet.",
    "Trusted: the function table in model/eval.go. Bounded value universe; unordered results compared through outcome sets.",
    "DESIGN.md section 5 C09"),
  "C10": ("M", "model_checking",
    "exhaustive function x arity x argument-type matrix enumeration against the reference signature table",
-   "28 names x arities 0..3 x all argument tuples over 13 argument kinds (11 JSON values + 2 expression references) as literals and through document fields, arity 4 over a 6-kind subset, and by-expression functions over all arrays of length 0..3 (thorough 4) of 10 element kinds: every call the reference signature table rejects must be an error (never a value or a panic), every accepted call must give the reference value.",
+   "28 names x arities 0..3 x all argument tuples over 13 argument kinds (11 JSON values + 2 expression references) as literals and through document fields, arity 4 over a 6-kind subset, and by-expression functions over all arrays of length 0..4 (thorough 5) of 10 element kinds: every call the reference signature table rejects must be an error (never a value or a panic), every accepted call must give the reference value.",
    "Trusted: signature table in model/eval.go. Gap G11 (expression reference in a position typed any) gives no verdict.",
    "DESIGN.md section 5 C10"),
  "C11": ("M", "model_checking",
